@@ -241,6 +241,7 @@ func portfolio(text, file string, to time.Duration, wantUnsat bool) (res, out, l
 		}
 	}
 	var outs []string
+	errs := 0
 	res, label = "timeout", "none"
 	for i := 0; i < n; i++ {
 		x := <-ch
@@ -254,14 +255,22 @@ func portfolio(text, file string, to time.Duration, wantUnsat bool) (res, out, l
 		}
 		if x.v == 0 {
 			outs = append(outs, x.name+": "+x.res+" "+firstLines(x.out, 3))
-			if x.res != "sat" {
-				res = x.res
+			// (one solver rejecting the query - cvc5 on arrays indexed by arrays - is not an
+			// engine error as long as another solver accepts it)
+			if x.res == "unknown" {
+				res = "unknown"
+			}
+			if x.res == "error" {
+				errs++
 			}
 		}
 	}
 	cancel()
 	for _, v := range vs[1:] {
 		os.Remove(v.file)
+	}
+	if res != "sat" && res != "unsat" && errs == len(vs[0].solvers) {
+		res = "error"
 	}
 	if res != "sat" && res != "unsat" {
 		out = strings.Join(outs, "\n")
